@@ -35,7 +35,8 @@ SERIES_ONLY = {"binop_scalar", "unary", "reduce", "shift", "where", "drop_duplic
 
 
 def systematic(tier):
-    return templates.c01_cases(tier)
+    m = templates.matrix_cases(tier)
+    return templates.c01_cases(tier) + (m if tier == "thorough" else m[::2])
 
 
 def strategy(tier):
